@@ -363,7 +363,7 @@ impl DeviceControl for ControlHandle {
         let cmd = unwrap_or_log!(cmd::WriteMem::new(address, data));
         let maximum_cmd_length = self.config.maximum_cmd_length;
 
-        for chunk in cmd.chunks(maximum_cmd_length as usize).unwrap() {
+        for chunk in unwrap_or_log!(cmd.chunks(maximum_cmd_length as usize)) {
             let chunk_data_len = chunk.data_len();
             let ack: ack::WriteMem = unwrap_or_log!(self.send_cmd(chunk));
 
